@@ -19,7 +19,7 @@ ASSUMPTIONS = [
     "readings); the suggestion is wrong only if it is rejected in both readings while another position is accepted",
     "allowed-child oracle: the name labels a transition on some path from the start state to an accepting state",
 ]
-REQUIRED = ["index_cases", "restorable_cases", "foreign_refused", "allowed_true", "allowed_false", "sorted_cases"]
+REQUIRED = ["stateful_queries", "index_cases", "restorable_cases", "foreign_refused", "allowed_true", "allowed_false", "sorted_cases"]
 EXHAUSTIVE = {"quick": False, "thorough": False}
 
 
@@ -149,6 +149,48 @@ def run_rule(ctx, rule_name):
         ctx.count("delete_one_reinsert_cases")
         judge(ctx, rule_name, r, m, rank, seq, full[i], element)
         ctx.distinct((rule_name, seq, full[i]))
+    # stateful part: many queries on ONE parent object interleaved with edits; every answer must depend on nothing but the
+    # parent's current children (compared with the same query on a freshly built parent, and judged by the same oracle)
+    for _ in range((6 if ctx.tier == "quick" else 60) if len(names) >= 2 else 0):
+        parent = Node(element)
+        cur = list(random_valid(m, ctx.rng, ctx.rng.choice([2, 4, 7])) or [])
+        for c in cur:
+            parent.add_child(Node(c))
+        for _step in range(12):
+            cand = ctx.rng.choice(names)
+            probe = Node(cand)
+            try:
+                got = r.child_insert_index(parent, probe)
+            except Exception as e:
+                got = f"raised {type(e).__name__}"
+            fresh = Node(element)
+            for c in cur:
+                fresh.add_child(Node(c))
+            try:
+                want = mrule.Rule(rule_name).child_insert_index(fresh, Node(cand))
+            except Exception as e:
+                want = f"raised {type(e).__name__}"
+            ctx.evaluated()
+            ctx.count("stateful_queries")
+            if got != want:
+                ctx.violation("answer-depends-on-earlier-queries", f"{rule_name}: children {cur} + {cand!r}: {got!r} on a parent that was queried and "
+                                                                   f"edited before, {want!r} on a fresh parent with the same children",
+                              {"rule": rule_name, "seq": list(cur), "candidate": cand, "stateful": True})
+                break
+            judge(ctx, rule_name, r, m, rank, tuple(cur), cand, element)
+            ctx.distinct((rule_name, tuple(cur), cand, "stateful"))
+            emlkit.discard(fresh, probe)
+            # edit: insert at the suggested place, or remove one or two children
+            if isinstance(got, int) and ctx.rng.random() < 0.5 and 0 <= got <= len(cur):
+                parent.add_child(Node(cand), got)
+                cur.insert(got, cand)
+            elif cur:
+                for _k in range(ctx.rng.choice([1, 2])):
+                    if cur:
+                        i = ctx.rng.randrange(len(cur))
+                        parent.remove_child(parent.children[i])
+                        del cur[i]
+        emlkit.discard(parent)
     ctx.cover.setdefault("cases_per_rule", {})[rule_name] = n
 
 
